@@ -20,6 +20,12 @@ def replay_file(path):
         bad = r.get("ok") and (not r.get("same_tree") or r.get("reparse_errors") or not r.get("idempotent"))
         print("REPRODUCED (the formatted text does not parse back to the same tree)" if bad else "NOT REPRODUCED (same tree after formatting now)")
         return 1 if bad else 0
+    if "prql" in a and a.get("expect_lex_terminates"):
+        r = drv.req(_timeout=10, op="lex", prql=a["prql"])
+        print("source text:", repr(a["prql"]))
+        print("lexer now:", "no answer within 10 s" if r.get("hang") else ("tokens" if r.get("ok") else r.get("errors")))
+        print("REPRODUCED (the lexer does not terminate)" if r.get("hang") else "NOT REPRODUCED (the lexer answers now)")
+        return 1 if r.get("hang") else 0
     if "prql" in a and "expect_token" in a:
         # lexer findings: lex the recorded source text with the current tree and compare the first token
         r = drv.req(op="lex", prql=a["prql"])
